@@ -17,7 +17,7 @@ def build_rows(ctx, scns, schedules_of, perss):
             fam = []
             for label, arr in schedules_of(ex, rnd):
                 name = "w/i%d.n%d.p%d.%s" % (sc["i"], sc["n"], pers, label)
-                s = streams.scn_from_exchange(name, ex, arr, {"pers": pers, "dump": 1})
+                s = streams.scn_from_exchange(name, ex, arr, {"pers": pers, "dump": 1, "lzmalayers": 1})
                 if s.cfg.get("wf") != 1:
                     continue              # illegal draw (response before its request head): not a well-formed schedule
                 out.append(s)
@@ -105,7 +105,14 @@ def attach_sites(ctx, bad, files):
                 run = json.loads(ln)["run"]; tps[run] = set()
             elif ln.startswith('{"e":"TP"'):
                 tps[run].add(json.loads(ln)["id"])
+    unfaithful = {v["run"] for v in bad if v["clause"] == "Fidelity"}
     for v in bad:
         mine = tps.get(v["run"], set())
-        whole = tps.get(v["run"].rsplit(".", 1)[0] + ".whole", set())
-        v["sites"] = sorted(mine - whole) if v["clause"] == "Invariance" else sorted(mine)
+        wname = v["run"].rsplit(".", 1)[0] + ".whole"
+        whole = tps.get(wname, set())
+        if v["clause"] == "Invariance":
+            # sites seen only in the differing run; when the whole-delivery reference is itself not faithful (a finding already hit it),
+            # the sites of the reference taint the comparison as well
+            v["sites"] = sorted((mine - whole) | (whole if wname in unfaithful else set()))
+        else:
+            v["sites"] = sorted(mine)
